@@ -8,7 +8,9 @@
        run_op E VS oB f args proj b  =  stepB E VS b p oB'
      - `proj` (defined next to each theorem) reads the value the program returns as Layer A's `out`;
      - the events are read off the program's log (ev_of_log): hashes computed, objects dropped, entries evicted,
-       table rebuilt;
+       table rebuilt; the log also records every assignment of self.current_size / self.max_size (LWrite), which is
+       no event of Layer A: the P2_<f>_call theorems state the log itself, so the ORDER of the bookkeeping relative
+       to the points where user code runs (hashing, Drop) is pinned even where the final cache is the same;
      - oB' is oB, except for the three operations whose model adds the oracle's tombstone count to the table even
        when nothing was erased (set_max_size, insert, mutate): there oB' = tomb_if c oB with c = "the operation erases
        something", an explicit Boolean of the state (OpLang charges the tombstones at the first erasure);
@@ -187,6 +189,9 @@ Ltac callr lem := rewrite exec_call; cbn; rewrite lem; cbn.
 Ltac norm := lazy beta iota zeta delta [leave leave_block with_ret with_env add_log with_cs with_g with_cur with_max with_tb enter
                                        env cs charged lg ret fst snd].
 
+(* the writes of the two counters, as they appear in the log *)
+Definition w_cur : logitem := LWrite "current_size".
+Definition w_max : logitem := LWrite "max_size".
 (* the table accounting after an erasure *)
 Definition tb_charged (ch : bool) (t : tbl) : tbl := if ch then t else t_erase t (o_tomb (ob oB)).
 
@@ -198,7 +203,7 @@ Theorem P2_lrucache_remove_metadata_call a n st :
    | PLive k v => c <- sub64 (bcur b) (nsize n) ;;
         Some (VKV {| ek := k; ev := v; es := nsize n |},
               {| env := env st; cs := {| bg := {| gh := free h2 a; gseal := gseal (bg b); glist := glist (bg b) |}; bcur := c; bmax := bmax b; btb := btb b |};
-                 charged := charged st; lg := lg st; ret := ret st |})
+                 charged := charged st; lg := lg st ++ [w_cur]; ret := ret st |})
    | _ => None end).
 Proof.
   destruct st as [en b ch l r]. unfold call_fn, lrucache_remove_metadata. cbn.
@@ -213,7 +218,7 @@ Theorem P2_lrucache_remove_ptr_call a st :
   (let b := cs st in
    e <- entry_at (gh (bg b)) a ;; g' <- b_remove (bg b) a ;; c <- sub64 (bcur b) (es e) ;;
    Some (VKV e, {| env := env st; cs := {| bg := g'; bcur := c; bmax := bmax b; btb := tb_charged (charged st) (btb b) |};
-                   charged := true; lg := lg st ++ [LHash]; ret := ret st |})).
+                   charged := true; lg := lg st ++ [LHash; w_cur]; ret := ret st |})).
 Proof.
   destruct st as [en b ch l r]. unfold call_fn, lrucache_remove_ptr. cbn.
   rewrite entry_at_unfold. unfold b_remove.
@@ -221,7 +226,8 @@ Proof.
   rewrite (unhinge_split _ _ _ Hn).
   destruct (npay n) as [|k v|k v] eqn:Hp; cbn; try reflexivity.
   destruct ch; cbn; callr P2_lrucache_remove_metadata_call; rewrite Hp;
-  (case_on (set_next (gh (bg b)) (nprev n) (nnext n)); case_on (set_prev h (nnext n) (nprev n)); case_on (sub64 (bcur b) (nsize n))).
+  (case_on (set_next (gh (bg b)) (nprev n) (nnext n)); case_on (set_prev h (nnext n) (nprev n)); case_on (sub64 (bcur b) (nsize n)));
+  rewrite <- app_assoc; reflexivity.
 Qed.
 
 Theorem P2_lrucache_remove_lru_call st :
@@ -233,7 +239,7 @@ Theorem P2_lrucache_remove_lru_call st :
    | Some a =>
      e <- entry_at (gh (bg b)) a ;; g' <- b_remove (bg b) a ;; c <- sub64 (bcur b) (es e) ;;
      Some (VSome (VKV e), {| env := env st; cs := {| bg := g'; bcur := c; bmax := bmax b; btb := tb_charged (charged st) (btb b) |};
-                             charged := true; lg := lg st ++ [LHash]; ret := ret st |})
+                             charged := true; lg := lg st ++ [LHash; w_cur]; ret := ret st |})
    end).
 Proof.
   destruct st as [en b ch l r]. unfold call_fn, lrucache_remove_lru. cbn.
@@ -251,7 +257,7 @@ Theorem P2_lrucache_remove_mru_call st :
    | Some a =>
      e <- entry_at (gh (bg b)) a ;; g' <- b_remove (bg b) a ;; c <- sub64 (bcur b) (es e) ;;
      Some (VSome (VKV e), {| env := env st; cs := {| bg := g'; bcur := c; bmax := bmax b; btb := tb_charged (charged st) (btb b) |};
-                             charged := true; lg := lg st ++ [LHash]; ret := ret st |})
+                             charged := true; lg := lg st ++ [LHash; w_cur]; ret := ret st |})
    end).
 Proof.
   destruct st as [en b ch l r]. unfold call_fn, lrucache_remove_mru. cbn.
@@ -261,7 +267,7 @@ Proof.
 Qed.
 
 (* ---------- eject_to_target = b_eject ---------- *)
-Definition evict_log (evd : list entry) : list logitem := flat_map (fun e => [LHash; LDropKV evict_site e]) evd.
+Definition evict_log (evd : list entry) : list logitem := flat_map (fun e => [LHash; w_cur; LDropKV evict_site e]) evd.
 Definition tb_after (ch : bool) (t : tbl) (evd : list entry) : tbl := match evd with [] => t | _ => tb_charged ch t end.
 Definition ch_after (ch : bool) (evd : list entry) : bool := match evd with [] => ch | _ => true end.
 Lemma tb_after_true t evd : tb_after true t evd = t.
@@ -383,7 +389,7 @@ Lemma log_hashes_cons i l : log_hashes (i :: l) = hashes_of i + log_hashes l.
 Proof. reflexivity. Qed.
 Lemma log_rebuilt_cons i l : log_rebuilt (i :: l) = rebuilt_of i || log_rebuilt l.
 Proof. reflexivity. Qed.
-Lemma evict_log_cons e r : evict_log (e :: r) = [LHash; LDropKV evict_site e] ++ evict_log r.
+Lemma evict_log_cons e r : evict_log (e :: r) = [LHash; w_cur; LDropKV evict_site e] ++ evict_log r.
 Proof. reflexivity. Qed.
 Lemma evict_log_evicted evd : log_evicted (evict_log evd) = evd.
 Proof. induction evd as [|e r IH]; [reflexivity|]. rewrite evict_log_cons, log_evicted_app, IH. reflexivity. Qed.
@@ -392,7 +398,7 @@ Proof. induction evd as [|e r IH]; [reflexivity|]. rewrite evict_log_cons, log_d
 Lemma evict_log_hashes evd : log_hashes (evict_log evd) = N.of_nat (List.length evd).
 Proof.
   induction evd as [|e r IH]; [reflexivity|]. rewrite evict_log_cons, log_hashes_app, IH. cbn [List.length].
-  change (log_hashes [LHash; LDropKV evict_site e]) with 1. lia.
+  change (log_hashes [LHash; w_cur; LDropKV evict_site e]) with 1. lia.
 Qed.
 Lemma evict_log_rebuilt evd : log_rebuilt (evict_log evd) = false.
 Proof. induction evd as [|e r IH]; [reflexivity|]. rewrite evict_log_cons, log_rebuilt_app, IH. reflexivity. Qed.
@@ -436,15 +442,30 @@ Proof.
   unfold bB_remove_at. case_on (entry_at (gh (bg b)) a). case_on (b_remove (bg b) a). case_on (sub64 (bcur b) (es e)).
 Qed.
 
-(* ---------- set_max_size ---------- *)
+(* ---------- set_max_size ----------
+   Swapping its two statements gives the same final cache (eject_to_target does not read max_size); what differs is
+   the ORDER of the bookkeeping: the limit would be stored before the evictions run (user code - hashing, Drop - runs
+   during them).  The log records the assignments of the counters, and the first theorem pins it. *)
+Theorem P2_lrucache_set_max_size_call n st :
+  callf lrucache_set_max_size [VNum n] st =
+  (let b := cs st in
+   x <- b_eject (List.length (glist (bg b))) (bg b) (bcur b) n ;;
+   let '(g', c', evd) := x in
+   Some (VUnit, {| env := env st; cs := {| bg := g'; bcur := c'; bmax := n; btb := tb_after (charged st) (btb b) evd |};
+                   charged := ch_after (charged st) evd; lg := lg st ++ evict_log evd ++ [w_max]; ret := ret st |})).
+Proof.
+  destruct st as [en b ch l r]. unfold call_fn, lrucache_set_max_size. cbn. callr P2_lrucache_eject_to_target_call.
+  destruct (b_eject (List.length (glist (bg b))) (bg b) (bcur b) n) as [[[g1 c1] evd]|]; cbn; [|reflexivity].
+  norm. cbn. rewrite app_nil_r, <- app_assoc. reflexivity.
+Qed.
 Theorem P2_lrucache_set_max_size : forall b n,
   run lrucache_set_max_size [VNum n] out_unit b = stepB E VS b (SetMaxSize n) (tomb_if (n <? bcur b) oB).
 Proof.
-  intros b n. unfold run_op, run_fn, init, call_fn, lrucache_set_max_size. cbn. callr P2_lrucache_eject_to_target_call.
+  intros b n. unfold run_op, run_fn, init. rewrite P2_lrucache_set_max_size_call. cbn.
   destruct (b_eject (List.length (glist (bg b))) (bg b) (bcur b) n) as [[[g1 c1] evd]|] eqn:He; cbn; [|reflexivity].
   pose proof (b_eject_nil _ _ _ _ _ _ _ He) as Hn. rewrite N.ltb_antisym.
   evlog.
-  destruct evd; rewrite Hn; cbn; [rewrite t_erase_0|]; reflexivity.
+  destruct evd; rewrite Hn; cbn; rewrite ?t_erase_0, ?app_nil_r; repeat rewrite N.add_0_r; reflexivity.
 Qed.
 
 (* ---------- touch / get_entry / get ---------- *)
@@ -524,7 +545,7 @@ Theorem P2_lrucache_remove_entry_call q st :
    | Some (a, e) => g' <- b_remove (bg b) a ;; c <- sub64 (bcur b) (es e) ;;
         Some (VSome (VKV e),
               {| env := env st; cs := {| bg := g'; bcur := c; bmax := bmax b; btb := tb_charged (charged st) (btb b) |};
-                 charged := true; lg := lg st ++ [LHash]; ret := ret st |})
+                 charged := true; lg := lg st ++ [LHash; w_cur]; ret := ret st |})
    | None => Some (VNone, {| env := env st; cs := b; charged := charged st; lg := lg st ++ [LHash]; ret := ret st |})
    end).
 Proof.
@@ -533,7 +554,7 @@ Proof.
   destruct (entry_at_node _ _ _ (b_find_sound _ _ _ _ Hf)) as (n & Hn & Hp & Hs). rewrite Hn. cbn.
   callr P2_lrucache_remove_metadata_call. unfold b_remove. rewrite (unhinge_split _ _ _ Hn), Hp, Hs.
   case_on (set_next (gh (bg b)) (nprev n) (nnext n)). case_on (set_prev h (nnext n) (nprev n)).
-  case_on (sub64 (bcur b) (es e)). destruct e; reflexivity.
+  case_on (sub64 (bcur b) (es e)). rewrite <- app_assoc. destruct e; reflexivity.
 Qed.
 Theorem P2_lrucache_remove_entry : forall b q, run lrucache_remove_entry [VId q] out_kv b = stepB E VS b (RemoveEntry q) oB.
 Proof.
@@ -786,7 +807,7 @@ Theorem P2_lrucache_insert_unchecked_call u st : o_alloc (ob oB) = true ->
    let '(g2, t2, rebuilt) := y in
    c2 <- add64 (bcur b) (es u) ;;
    Some (VUnit, {| env := env st; cs := {| bg := g2; bcur := c2; bmax := bmax b; btb := t2 |}; charged := charged st;
-                   lg := lg st ++ (if rebuilt : bool then [LRehash (N.of_nat (List.length (glist (bg b))))] else []); ret := ret st |})).
+                   lg := lg st ++ (if rebuilt : bool then [LRehash (N.of_nat (List.length (glist (bg b))))] else []) ++ [w_cur]; ret := ret st |})).
 Proof.
   intros Halloc. destruct st as [en b ch l r]. xstart lrucache_insert_unchecked. xrun.
   destruct (nextof (gh (bg b)) (gseal (bg b))) as [x0|] eqn:Hx0; [|now rewrite insert_unchecked_no_seal]. xrun.
@@ -796,13 +817,13 @@ Proof.
   { cbn. destruct (mem_addr (ob_addr oB) (gseal (bg b) :: glist (bg b))); xrun; [reflexivity|].
     rewrite b_insert_new_eq, Hx0. cbn.
     destruct (add64 (bcur b) (es u)) as [c2|]; xrun.
-    - destruct (set_head _ (gseal (bg b)) (ob_addr oB)) as [h'|]; xrun; [|reflexivity]. norm. cbn. rewrite !app_nil_r. reflexivity.
+    - destruct (set_head _ (gseal (bg b)) (ob_addr oB)) as [h'|]; xrun; [|reflexivity]. norm. cbn. rewrite ?app_nil_r, <- ?app_assoc. cbn [app]. reflexivity.
     - destruct (set_head _ (gseal (bg b)) (ob_addr oB)) as [h'|]; reflexivity. }
   destruct (0 <? growth_left (btb b) (N.of_nat (List.length (glist (bg b))))) eqn:Hg.
   { cbn. destruct (mem_addr (ob_addr oB) (gseal (bg b) :: glist (bg b))); xrun; [reflexivity|].
     rewrite b_insert_new_eq, Hx0. cbn.
     destruct (add64 (bcur b) (es u)) as [c2|]; xrun.
-    - destruct (set_head _ (gseal (bg b)) (ob_addr oB)) as [h'|]; xrun; [|reflexivity]. norm. cbn. rewrite !app_nil_r. reflexivity.
+    - destruct (set_head _ (gseal (bg b)) (ob_addr oB)) as [h'|]; xrun; [|reflexivity]. norm. cbn. rewrite ?app_nil_r, <- ?app_assoc. cbn [app]. reflexivity.
     - destruct (set_head _ (gseal (bg b)) (ob_addr oB)) as [h'|]; reflexivity. }
   xrun. rewrite exec_call. cbn.
   destruct (mul64 (capacity (btb b)) 2) as [cc|] eqn:Hmul; xrun; [|reflexivity].
@@ -819,7 +840,7 @@ Proof.
   { cbn. destruct (mem_addr (ob_addr oB) (gseal g1 :: glist g1)); xrun; [reflexivity|].
     rewrite b_insert_new_eq, Hx1. cbn. rewrite !H1.
     destruct (add64 (bcur b) (es u)) as [c2|]; xrun.
-    - destruct (set_head _ (gseal (bg b)) (ob_addr oB)) as [h'|]; xrun; [|reflexivity]. norm. cbn. rewrite !app_nil_r. reflexivity.
+    - destruct (set_head _ (gseal (bg b)) (ob_addr oB)) as [h'|]; xrun; [|reflexivity]. norm. cbn. rewrite ?app_nil_r, <- ?app_assoc. cbn [app]. reflexivity.
     - destruct (set_head _ (gseal (bg b)) (ob_addr oB)) as [h'|]; reflexivity. }
   (* a second failure: the model gives up (None); the program reallocates once more and runs out of rounds *)
   xrun. rewrite exec_call. cbn.
@@ -1155,6 +1176,7 @@ Print Assumptions P2_lrucache_get_mut_from_table_call.
 Print Assumptions P2_lrucache_get_from_table_call.
 Print Assumptions P2_lrucache_remove_lru.
 Print Assumptions P2_lrucache_remove_mru.
+Print Assumptions P2_lrucache_set_max_size_call.
 Print Assumptions P2_lrucache_set_max_size.
 Print Assumptions P2_lrucache_touch.
 Print Assumptions P2_lrucache_get_entry_call.
